@@ -532,7 +532,7 @@ func run(tier string, i int, deadline time.Time) *hk.JobResult {
 	}
 	r.Bounds["symbols_used"] = len(al)
 	s := &hk.Search{Alphabet: alpha, Depth: c.Depth, Dedup: true, Deadline: deadline,
-		Allowed: func([]int) []int { return al },
+		Allowed:  func([]int) []int { return al },
 		Exec:     func(h []int) hk.Step { return exec(c, h) },
 		Describe: func(h []int) any { return describe(c, h) }}
 	st := s.Run()
